@@ -462,7 +462,7 @@ def _sim_builtins(sim):
             "map": lambda f, *a: [f(*p) for p in zip(*[sim.items(x) for x in a])], "iter": lambda x: iter(sim.items(x)), "next": next, "getattr": sim._getattr,
             "collections.Counter": _c.Counter, "Counter": _c.Counter, "collections.OrderedDict": _c.OrderedDict, "OrderedDict": _c.OrderedDict,
             "collections.defaultdict": _c.defaultdict, "defaultdict": _c.defaultdict, "collections.deque": _c.deque, "deque": _c.deque,
-            "re.sub": re.sub, "re.findall": re.findall, "re.split": re.split}  # pure functions of texts (an uninterpreted argument makes the result uninterpreted, see call())
+            "re.sub": re.sub, "re.findall": re.findall, "re.split": re.split, "types.MappingProxyType": dict, "MappingProxyType": dict}  # pure functions of texts (an uninterpreted argument makes the result uninterpreted, see call())
 
 
 class Sim:
@@ -778,12 +778,29 @@ class Sim:
         """interpret the whole body of `func` for the arguments of `call` (evaluated in env); the value it returns (None on fall-through)."""
         if self.depth >= 4:
             raise CannotEval("call depth")
-        if any(isinstance(x, ast.Starred) for x in call.args) or any(k.arg is None for k in call.keywords):
-            raise CannotEval(f"{u(call)[:50]}: * / ** arguments")
-        names = params_of(func)
-        if len(call.args) > len(names[1:] if names and names[0] in ("self", "cls") else names):
-            raise CannotEval(f"{u(call)[:50]}: too many arguments")
-        return self.apply(func, [self.ev(x, env) for x in call.args], {k.arg: self.ev(k.value, env) for k in call.keywords}, extra, u(call)[:50])
+        args, kwargs = self.arguments(call, env)
+        return self.apply(func, args, kwargs, extra, u(call)[:50])
+
+    def arguments(self, call, env):
+        """(positional values, keyword values) of a call; *<sequence> and **<mapping with text keys> are spread when they evaluate to such."""
+        args, kwargs = [], {}
+        for x in call.args:
+            if isinstance(x, ast.Starred):
+                v = self.ev(x.value, env)
+                if not isinstance(v, (list, tuple)):
+                    raise CannotEval(f"{u(call)[:50]}: * of {type(v).__name__}")
+                args += list(v)
+            else:
+                args.append(self.ev(x, env))
+        for k in call.keywords:
+            v = self.ev(k.value, env)
+            if k.arg is None:
+                if not isinstance(v, dict) or not all(isinstance(n_, str) for n_ in v):
+                    raise CannotEval(f"{u(call)[:50]}: ** of {type(v).__name__}")
+                kwargs.update(v)
+            else:
+                kwargs[k.arg] = v
+        return args, kwargs
 
     def apply(self, func, args, kwargs, extra=None, what="call", skip_first=True):
         """interpret the whole body of `func` for argument VALUES; the first parameter is not filled from args when it is called self / cls or is bound in `extra`."""
@@ -970,8 +987,30 @@ class Sim:
                 if it.optional_vars is not None:
                     self.assign(it.optional_vars, v, env)
             self.run(s.body, env, keep)
+        elif isinstance(s, ast.Match) and keep is None:  # (a sliced run does not look inside the cases)
+            subj = self.ev(s.subject, env)
+            for c in s.cases:
+                if self._matches(c.pattern, subj, env) and (c.guard is None or self.truth(self.ev(c.guard, env))):
+                    self.run(c.body, env, keep)
+                    break
         else:
             raise CannotEval(f"statement kind {type(s).__name__} at line {getattr(s, 'lineno', '?')}")
+
+    def _matches(self, p, subj, env):
+        """structural pattern matching, the forms a dispatch on a value uses: literal / dotted-name values, None / True / False, alternatives, the wildcard and a capture."""
+        if isinstance(p, ast.MatchValue):
+            return self._cmp(ast.Eq(), subj, self.ev(p.value, env), p.value)
+        if isinstance(p, ast.MatchSingleton):
+            return subj is p.value
+        if isinstance(p, ast.MatchOr):
+            return any(self._matches(x, subj, env) for x in p.patterns)
+        if isinstance(p, ast.MatchAs):
+            if p.pattern is not None and not self._matches(p.pattern, subj, env):
+                return False
+            if p.name is not None:
+                env[p.name] = subj
+            return True
+        raise CannotEval(f"match pattern {type(p).__name__}")
 
     def _handler_for(self, tr, sig):
         """the except clause of `tr` that catches the exception of sig (by class name: builtin classes by their real hierarchy, other classes by equal last name component;
@@ -1164,7 +1203,8 @@ def run(chk):
     ldr, trk, rn, pr = repo.module(_L), repo.module(_T), repo.module(_R), repo.module(_P)
     chk.use(ldr, trk, rn, pr, _S, "docs/track.rst")
     chk.explanation = (
-        "Decides the loader on VALUES: a small interpreter in this module (Python containers, records and uninterpreted values; nothing of the repository is called) runs the EXTRACTED "
+        "Decides the loader on VALUES: a small interpreter in this module (Python containers, records, uninterpreted values and Enum classes modelled from their ClassDef: members in "
+        "declaration order, Enum[name], .name / .value, the class's own methods; nothing of the repository is called) runs the EXTRACTED "
         "statements of the loader — whole methods with the helpers of the class they call entered, or the slice that decides a value — on representative specifications. "
         "The operation-type registry is interpreted for every documented name (bijection with the enum members, agreement with to_hyphenated_string and with the observed runner / "
         "param-source registrations); parse_task / parse_parallel / _create_corpora are interpreted on specifications whose keys carry marker values, which must reach the Task / "
@@ -1332,13 +1372,16 @@ def run(chk):
              "(= to_hyphenated_string); every default-runner / param-source registration names a member; the composite's supported list is a subset of registered names", 60,
              "an operation type written in a track resolves to another operation, or a documented type is rejected as unknown")
     OT = trk.cls("OperationType")
-    members = [n.targets[0].id for n in OT.body if isinstance(n, ast.Assign) and isinstance(n.targets[0], ast.Name) and isinstance(n.value, ast.Tuple)]
+    # members: the names bound in the class body to a value (a tuple on this tree; a constant, auto() or a record built by a call would be one as well), private names left out
+    members = [n.targets[0].id for n in OT.body if isinstance(n, ast.Assign) and len(n.targets) == 1 and isinstance(n.targets[0], ast.Name) and not n.targets[0].id.startswith("_")
+               and isinstance(n.value, (ast.Tuple, ast.Call, ast.Constant))]
     fh = trk.methods(OT).get("from_hyphenated_string")
     if fh is None or len(members) < 40:
         raise AnchorMissing("OperationType members / from_hyphenated_string")
-    if len(params_of(fh)) < 2:
+    fh_static = any(last_attr(d_) == "staticmethod" for d_ in fh.decorator_list)
+    if len(params_of(fh)) < (1 if fh_static else 2):
         raise AnchorMissing("from_hyphenated_string(cls, <literal>)")
-    vpar = params_of(fh)[1]
+    vpar = params_of(fh)[0 if fh_static else 1]
     # registry keys: every string literal the parameter is compared with (any orientation, `in` tuples included); one entry per occurrence
     lits = [c.value for n in walk_body(fh) if isinstance(n, ast.Compare) and any(name_of(x) == vpar for x in ast.walk(n)) for c in ast.walk(n) if isinstance(c, ast.Constant) and isinstance(c.value, str)]
     # the enum class itself is a value the interpreter knows (extracted from its ClassDef): iteration in declaration order, Enum[name], .name, the class's own methods — so a
@@ -1400,7 +1443,7 @@ def run(chk):
     def resolve(lit):
         """outcome of the function for this literal: its body is interpreted (if-chain, separate ifs, `in` tuples, a literal or derived table looked up by the literal, a search
         over the members, helpers of the module entered — all the same)."""
-        return simulate(stmts_of(fh.body), {**fh_env, vpar: lit, params_of(fh)[0]: ot_cls}, hook=trk_hook, enums=ot_enums)
+        return simulate(stmts_of(fh.body), {**fh_env, **({} if fh_static else {params_of(fh)[0]: ot_cls}), vpar: lit}, hook=trk_hook, enums=ot_enums)
 
     def member_of(v):
         """X if the value is <track.>OperationType.X."""
@@ -1662,10 +1705,9 @@ def run(chk):
 
         def hook(e, env_, sim):
             if is_target(e):
-                if any(isinstance(a, ast.Starred) for a in e.args) or any(k.arg is None for k in e.keywords):
-                    raise CannotEval(f"{short(e, 40)}: * / ** arguments")
-                vals = dict(zip(callee_params, [sim.ev(a, env_) for a in e.args]))
-                vals.update({k.arg: sim.ev(k.value, env_) for k in e.keywords})
+                args_, kwargs_ = sim.arguments(e, env_)  # (a keyword table spread with ** counts like keywords written out)
+                vals = dict(zip(callee_params, args_))
+                vals.update(kwargs_)
                 raise _Sig("stop", vals, e)
             return base(e, env_, sim)
 
@@ -1735,7 +1777,9 @@ def run(chk):
         for key, param in TASK_KEYS.items():
             if param not in ("tags", "meta_data"):
                 holders = [a_ for a_, v_ in obj.fields.items() if same(v_, amark[param])]
-                chk.ob("O10.2", f"Task.{param} stores its parameter", same(obj.fields.get(param), amark[param]), tinit, f"stored in {['self.' + a_ for a_ in holders] or 'no attribute'}",
+                # ... or its private twin when a property of that name hands it out
+                twin = "_" + param in holders and any(isinstance(f_, ast.FunctionDef) and f_.name == param and any(last_attr(d_) in ("property", "cached_property") for d_ in f_.decorator_list) for f_ in TK.body)
+                chk.ob("O10.2", f"Task.{param} stores its parameter", param in holders or twin, tinit, f"stored in {['self.' + a_ for a_ in holders] or 'no attribute'}",
                        key=f"{_T}:Task.__init__:{param}")
     except CannotEval as e:
         chk.unknown("O10.2", f"Task.__init__ cannot be interpreted on marker arguments: {e}", tinit)
@@ -2939,6 +2983,22 @@ def run(chk):
 
 from sa.selftest import V  # noqa: E402
 
+# the whole string->member method of OperationType as it stands on the pinned tree (regular expression: the chain is replaced as one piece)
+_FH_RE = (r"    # pylint: disable=too-many-return-statements\n    @classmethod\n    def from_hyphenated_string\(cls, v\):\n.*?"
+          r"raise KeyError\(f\"No enum value for \[\{v\}\]\"\)\n")
+
+# the five inheritable keys of parse_task written as keyword arguments (old) / read through a table and spread with ** (new, the two iteration defaults as given)
+_KW_OLD = ("            warmup_iterations=self._r(\n                task_spec, \"warmup-iterations\", error_ctx=op.name, mandatory=False, default_value=default_warmup_iterations\n            ),\n"
+           "            iterations=self._r(task_spec, \"iterations\", error_ctx=op.name, mandatory=False, default_value=default_iterations),\n"
+           "            warmup_time_period=self._r(\n                task_spec, \"warmup-time-period\", error_ctx=op.name, mandatory=False, default_value=default_warmup_time_period\n            ),\n"
+           "            time_period=self._r(task_spec, \"time-period\", error_ctx=op.name, mandatory=False, default_value=default_time_period),\n"
+           "            ramp_up_time_period=self._r(\n                task_spec, \"ramp-up-time-period\", error_ctx=op.name, mandatory=False, default_value=default_ramp_up_time_period\n            ),\n")
+_KW_TABLE = ("        inheritable = {\n            \"warmup_iterations\": (\"warmup-iterations\", %s),\n            \"iterations\": (\"iterations\", %s),\n"
+             "            \"warmup_time_period\": (\"warmup-time-period\", default_warmup_time_period),\n            \"time_period\": (\"time-period\", default_time_period),\n"
+             "            \"ramp_up_time_period\": (\"ramp-up-time-period\", default_ramp_up_time_period),\n        }\n"
+             "        inherited = {param: self._r(task_spec, key, error_ctx=op.name, mandatory=False, default_value=default) for param, (key, default) in inheritable.items()}\n"
+             "        task = track.Task(\n            name=task_name,\n            operation=op,\n            **inherited,\n")
+
 VARIANTS = [
     V("one registry arm dropped", "break", _T, "        elif v == \"bulk\":\n            return OperationType.Bulk\n", "", "O10.1"),
     V("duplicate literal", "break", _T, "        elif v == \"node-stats\":\n            return OperationType.NodeStats", "        elif v == \"index-stats\":\n            return OperationType.NodeStats", "O10.1"),
@@ -3203,4 +3263,81 @@ VARIANTS = [
      V("", "break", _L, "    def _create_corpora(self, corpora_specs, indices, data_streams):\n",
        "    def _account_for(self, template_text):\n        if self.track_params:\n            register_all_params_in_track(template_text, self.complete_track_params)\n\n"
        "    def _create_corpora(self, corpora_specs, indices, data_streams):\n")],
+    # ---- hardening round 3: the string->member direction written without the chain (benign/C10-b5 and further shapes), the enum interpreted from its ClassDef ----
+    V("registry: lookup in a table derived from the members at module level", "keep", _T, _FH_RE,
+      "    @classmethod\n    def from_hyphenated_string(cls, v):\n        try:\n            return _BY_NAME[v]\n        except (KeyError, TypeError):\n"
+      "            raise KeyError(f\"No enum value for [{v}]\") from None\n\n\n_BY_NAME = {op_type.to_hyphenated_string(): op_type for op_type in OperationType}\n", regex=True),
+    V("registry: derived table keyed by the lower-cased member name", "break", _T, _FH_RE,
+      "    @classmethod\n    def from_hyphenated_string(cls, v):\n        try:\n            return _BY_NAME[v]\n        except (KeyError, TypeError):\n"
+      "            raise KeyError(f\"No enum value for [{v}]\") from None\n\n\n_BY_NAME = {op_type.name.lower(): op_type for op_type in OperationType}\n", "O10.1", regex=True),
+    V("registry: derived table, unknown names answered with None", "break", _T, _FH_RE,
+      "    @classmethod\n    def from_hyphenated_string(cls, v):\n        return _BY_NAME.get(v)\n\n\n_BY_NAME = {op_type.to_hyphenated_string(): op_type for op_type in OperationType}\n", "O10.1", regex=True),
+    V("registry: search loop over the members", "keep", _T, _FH_RE,
+      "    @classmethod\n    def from_hyphenated_string(cls, v):\n        for op_type in cls:\n            if op_type.to_hyphenated_string() == v:\n                return op_type\n"
+      "        raise KeyError(f\"No enum value for [{v}]\")\n", regex=True),
+    V("registry: search loop that skips the administrative operations", "break", _T, _FH_RE,
+      "    @classmethod\n    def from_hyphenated_string(cls, v):\n        for op_type in cls:\n            if not op_type.admin_op and op_type.to_hyphenated_string() == v:\n                return op_type\n"
+      "        raise KeyError(f\"No enum value for [{v}]\")\n", "O10.1", regex=True),
+    V("registry: search loop that raises ValueError for an unknown name", "break", _T, _FH_RE,
+      "    @classmethod\n    def from_hyphenated_string(cls, v):\n        for op_type in cls:\n            if op_type.to_hyphenated_string() == v:\n                return op_type\n"
+      "        raise ValueError(f\"No enum value for [{v}]\")\n", "O10.1", regex=True),
+    [V("registry: table built by a cached module-level function", "keep", _T, _FH_RE,
+       "    @classmethod\n    def from_hyphenated_string(cls, v):\n        op_type = _operation_types_by_name().get(v) if isinstance(v, str) else None\n        if op_type is None:\n"
+       "            raise KeyError(f\"No enum value for [{v}]\")\n        return op_type\n", regex=True),
+     V("", "keep", _T, "\n\nclass TaskNameFilter:\n",
+       "\n\n@functools.lru_cache(maxsize=1)\ndef _operation_types_by_name():\n    return {op_type.to_hyphenated_string(): op_type for op_type in OperationType}\n\n\nclass TaskNameFilter:\n")],
+    V("registry: member name reconstructed from the hyphenated name, looked up in __members__", "keep", _T, _FH_RE,
+      "    @classmethod\n    def from_hyphenated_string(cls, v):\n        candidate = \"\".join(part.capitalize() for part in v.split(\"-\")) if isinstance(v, str) else \"\"\n"
+      "        member = cls.__members__.get(candidate)\n        if member is None or member.to_hyphenated_string() != v:\n            raise KeyError(f\"No enum value for [{v}]\")\n        return member\n", regex=True),
+    V("registry: table filled by a loop at module level", "keep", _T, _FH_RE,
+      "    @classmethod\n    def from_hyphenated_string(cls, v):\n        if v in _BY_NAME:\n            return _BY_NAME[v]\n        raise KeyError(f\"No enum value for [{v}]\")\n\n\n"
+      "_BY_NAME = {}\nfor _op_type in OperationType:\n    _BY_NAME[_op_type.to_hyphenated_string()] = _op_type\ndel _op_type\n", regex=True),
+    V("registry: next() over a generator, StopIteration turned into KeyError", "keep", _T, _FH_RE,
+      "    @classmethod\n    def from_hyphenated_string(cls, v):\n        try:\n            return next(op_type for op_type in cls if op_type.to_hyphenated_string() == v)\n"
+      "        except StopIteration:\n            raise KeyError(f\"No enum value for [{v}]\") from None\n", regex=True),
+    V("hyphenation via a regular expression", "keep", _T,
+      "        return \"\".join([\"-\" + c.lower() if c.isupper() else c for c in self.name]).lstrip(\"-\")",
+      "        return re.sub(r\"(?<!^)(?=[A-Z])\", \"-\", self.name).lower()"),
+    V("hyphenation via a regular expression that inserts underscores", "break", _T,
+      "        return \"\".join([\"-\" + c.lower() if c.isupper() else c for c in self.name]).lstrip(\"-\")",
+      "        return re.sub(r\"(?<!^)(?=[A-Z])\", \"_\", self.name).lower()", "O10.1"),
+    V("hyphenation via a generator and an f-string", "keep", _T,
+      "        return \"\".join([\"-\" + c.lower() if c.isupper() else c for c in self.name]).lstrip(\"-\")",
+      "        hyphenated = \"\".join(f\"-{c.lower()}\" if c.isupper() else c for c in self.name)\n        return hyphenated[1:] if hyphenated.startswith(\"-\") else hyphenated"),
+    [V("runner registry key computed by a helper function", "keep", _R,
+       "    if isinstance(operation_type, track.OperationType):\n        operation_type = operation_type.to_hyphenated_string()\n", "    operation_type = _registry_key(operation_type)\n"),
+     V("", "keep", _R, "def register_runner(operation_type, runner, **kwargs):\n",
+       "def _registry_key(op_type):\n    return op_type.to_hyphenated_string() if isinstance(op_type, track.OperationType) else op_type\n\n\ndef register_runner(operation_type, runner, **kwargs):\n")],
+    [V("runner registry key computed by a helper function that lower-cases the member name", "break", _R,
+       "    if isinstance(operation_type, track.OperationType):\n        operation_type = operation_type.to_hyphenated_string()\n", "    operation_type = _registry_key(operation_type)\n", "O10.1"),
+     V("", "break", _R, "def register_runner(operation_type, runner, **kwargs):\n",
+       "def _registry_key(op_type):\n    return op_type.name.lower() if isinstance(op_type, track.OperationType) else op_type\n\n\ndef register_runner(operation_type, runner, **kwargs):\n")],
+    V("runner registry: members stored as they are", "break", _R,
+      "    if isinstance(operation_type, track.OperationType):\n        operation_type = operation_type.to_hyphenated_string()\n", "", "O10.1"),
+    V("runner lookup via dict.get", "keep", _R,
+      "    try:\n        return __RUNNERS[operation_type]\n    except KeyError:\n        raise exceptions.RallyError(f\"No runner available for operation-type: [{operation_type}]\")\n",
+      "    runner = __RUNNERS.get(operation_type)\n    if runner is None:\n        raise exceptions.RallyError(f\"No runner available for operation-type: [{operation_type}]\")\n    return runner\n"),
+    V("runner lookup strips the hyphens", "break", _R, "        return __RUNNERS[operation_type]\n", "        return __RUNNERS[operation_type.replace(\"-\", \"\")]\n", "O10.1"),
+    V("error helper raises an exception object held in a local", "keep", _L, "        raise TrackSyntaxError(\"Track '%s' is invalid. %s\" % (self.name, msg))\n",
+      "        error = TrackSyntaxError(f\"Track '{self.name}' is invalid. {msg}\")\n        self.logger.debug(\"rejecting: %s\", msg)\n        raise error\n"),
+    [V("error helper hands the message to a function of the module that raises", "keep", _L, "        raise TrackSyntaxError(\"Track '%s' is invalid. %s\" % (self.name, msg))\n", "        _reject(self.name, msg)\n"),
+     V("", "keep", _L, "class TrackSpecificationReader:\n",
+       "def _reject(track_name, msg):\n    raise TrackSyntaxError(\"Track '%s' is invalid. %s\" % (track_name, msg))\n\n\nclass TrackSpecificationReader:\n")],
+    [V("error helper hands the message to a function of the module that only warns", "break", _L, "        raise TrackSyntaxError(\"Track '%s' is invalid. %s\" % (self.name, msg))\n", "        _reject(self.name, msg)\n", "O10.3"),
+     V("", "break", _L, "class TrackSpecificationReader:\n",
+       "def _reject(track_name, msg):\n    console.warn(\"Track '%s' is invalid. %s\" % (track_name, msg))\n\n\nclass TrackSpecificationReader:\n")],
+    V("error helper raises another class", "break", _L, "        raise TrackSyntaxError(\"Track '%s' is invalid. %s\" % (self.name, msg))\n",
+      "        raise exceptions.RallyAssertionError(\"Track '%s' is invalid. %s\" % (self.name, msg))\n", "O10.3"),
+    V("nested includes: base joined with the directory part of the pattern", "keep", _L,
+      "                repl[glob_pattern] = self.replace_includes(base_path=io.dirname(full_glob_path), track_fragment=sub_source)",
+      "                repl[glob_pattern] = self.replace_includes(base_path=os.path.join(base_path, os.path.dirname(glob_pattern)), track_fragment=sub_source)"),
+    V("nested includes relative to the directory part of the pattern only", "break", _L,
+      "                repl[glob_pattern] = self.replace_includes(base_path=io.dirname(full_glob_path), track_fragment=sub_source)",
+      "                repl[glob_pattern] = self.replace_includes(base_path=io.dirname(glob_pattern), track_fragment=sub_source)", "O10.6"),
+    V("top-level include base held in a local", "keep", _L, "        self.assembled_source = self.replace_includes(self.base_path, base_track[0])\n",
+      "        track_dir = self.base_path\n        self.assembled_source = self.replace_includes(track_dir, base_track[0])\n"),
+    [V("inheritable task keys read through a table and handed to Task(...) with **", "keep", _L, "        task = track.Task(\n            name=task_name,\n            operation=op,\n", _KW_TABLE % ("default_warmup_iterations", "default_iterations")),
+     V("", "keep", _L, _KW_OLD, "")],
+    [V("inheritable task keys read through a table whose defaults are swapped", "break", _L, "        task = track.Task(\n            name=task_name,\n            operation=op,\n", _KW_TABLE % ("default_iterations", "default_warmup_iterations"), "O10.2"),
+     V("", "break", _L, _KW_OLD, "")],
 ]
